@@ -2,7 +2,7 @@
    ik = invkMaxPolyDegree[cm]) for degree n = 2^k <= maxdeg = 2^K, and the public transform pair built on them.
    Definitions only (executable, extracted); proofs are in NTTClosed.v. *)
 From Coq Require Import ZArith List Arith.
-From NTT Require Import Functors Algebra Layer Transform Rev Inverse Tables.
+From NTT Require Import Functors Algebra Layer Transform Rev Inverse Tables Fused Structural.
 Import ListNotations.
 Local Open Scope Z_scope.
 
@@ -38,6 +38,18 @@ Definition ntt_inv (y : list Z) : list Z :=                                     
 Lemma ntt_inv_eq y : ntt_inv y = inv w p k0 twsi cs y.
 Proof. reflexivity. Qed.
 Lemma ntt_fwd_eq x : ntt_fwd x = fwd w p k0 tws phis x.
+Proof. reflexivity. Qed.
+(* the same pair with core::ntt as it is structured in the source (degree-2 special case, k-2 generic layers, fused last two
+   layers, strict reduction): THIS is the model that is extracted and run against the library *)
+Definition ntt_fwd_s (x : list Z) : list Z :=
+  let T := prep p k omega in let ph := phis in ntt_core w p k (fun lvl => nth lvl T []) (twist p k0 ph x).
+Definition ntt_inv_s (y : list Z) : list Z :=
+  let T := prep p k invomega in let c := cs in
+  let z := BR k0 (ntt_core w p k (fun lvl => nth lvl T []) (BR k0 y)) in
+  tab k0 (fun i => (nth i z 0 * nth i c 0) mod p).
+Lemma ntt_fwd_s_eq x : ntt_fwd_s x = ntt_core w p k tws (twist p k0 phis x).
+Proof. reflexivity. Qed.
+Lemma ntt_inv_s_eq y : ntt_inv_s y = tab k0 (fun i => (nth i (BR k0 (ntt_core w p k twsi (BR k0 y))) 0 * nth i cs 0) mod p).
 Proof. reflexivity. Qed.
 Definition ntt_mul (u v : list Z) : list Z := pointwise p k0 u v.                 (* operator* in evaluation form *)
 Definition nega_spec (a b : list Z) : list Z := negacyclic p k0 a b.              (* the ring product, schoolbook *)
